@@ -42,8 +42,12 @@ class GraphECU(UDSServer):
         return self._services
 
     async def respond(self, request: service.UDSRequest) -> service.UDSResponse | None:
-        self.monitor.saw(self.state.session, request.pdu)
-        return await super().respond(request)
+        before = self.state.session
+        self.monitor.saw(before, request.pdu)
+        resp = await super().respond(request)
+        if hasattr(self, "replies"):
+            self.replies.append((before, bytes(request.pdu), resp.pdu if resp is not None else None))
+        return resp
 
     async def respond_after_default(self, request: service.UDSRequest) -> service.UDSResponse | None:
         if isinstance(request, service.ECUResetRequest):
@@ -56,12 +60,27 @@ class ModelECU(RandomUDSServer):
 
     def __init__(self, seed: int, services: dict[int, dict[int, list[int] | None]], params: dict[str, Any] | None = None) -> None:
         super().__init__(seed, RandomUDSServer.RandomnessParameters(**(params or {})))
-        self._table = {int(s): {UDSIsoServices(int(k)): (list(v) if v is not None else None) for k, v in sv.items()} for s, sv in services.items()}
+        def key(k: Any) -> Any:
+            try:
+                return UDSIsoServices(int(k))
+            except ValueError:
+                return int(k)  # vendor specific service id
+
+        self._table = {int(s): {key(k): (list(v) if v is not None else None) for k, v in sv.items()} for s, sv in services.items()}
         self.monitor = Monitor()
+        self.replies: list[tuple[int, bytes, bytes | None]] = []
 
     def randomize(self) -> None:
         self.services = {s: dict(sv) for s, sv in self._table.items()}
 
+    async def setup(self) -> None:
+        # RandomUDSServer.setup() only logs the table (and assumes enum keys); the model is given
+        self.randomize()
+
     async def respond(self, request: service.UDSRequest) -> service.UDSResponse | None:
-        self.monitor.saw(self.state.session, request.pdu)
-        return await super().respond(request)
+        before = self.state.session
+        self.monitor.saw(before, request.pdu)
+        resp = await super().respond(request)
+        if hasattr(self, "replies"):
+            self.replies.append((before, bytes(request.pdu), resp.pdu if resp is not None else None))
+        return resp
